@@ -157,7 +157,16 @@ class Package:
     @property
     def conv(self):
         if self._conv is None:
-            self._conv = self.converters.get_converter()
+            import os
+            cfg = os.environ.get("VERIF_CONV_CFG", "default")
+            if cfg == "nodetail":        # a user-supplied converter with detailed validation switched off
+                import cattrs
+                self._conv = self.converters.get_converter(cattrs.Converter(detailed_validation=False))
+            elif cfg == "second":        # not the first converter of the process
+                self.converters.get_converter()
+                self._conv = self.converters.get_converter()
+            else:
+                self._conv = self.converters.get_converter()
         return self._conv
 
     def cls_of(self, ref):
